@@ -109,6 +109,7 @@ type pipeline struct {
 	mu       sync.Mutex
 	script   upstreamScript
 	upCalls  int
+	lastUp   string
 	store    *memStore
 	cacheCfg config.CacheConfig
 }
@@ -134,10 +135,12 @@ func newPipeline(cacheSize int, hitForPass string, withStore bool, srvOpt server
 	}
 	upstream.Reset(ups)
 	for _, u := range ups {
+		uname := u.Name
 		if us := upstream.Get(u.Name); us != nil {
 			us.Proxy = func(c *elton.Context) error {
 				p.mu.Lock()
 				p.upCalls++
+				p.lastUp = uname
 				f := p.script
 				p.mu.Unlock()
 				if f == nil {
